@@ -59,6 +59,19 @@ CHECKS.update({
                      "mutant that Python-== keys do not, and enumerates all histories of facade calls of length 2 and 3 over the pool; the "
                      "walker performs each history on one real retort (and its replace()/extend() offspring) and every response, also when "
                      "asked again later, must equal that of a freshly constructed equal retort with an empty normalisation cache."),
+    "C12": dict(technique="TLA+ spec Conc.tla (lookup/creation/caching protocol at the grain of shared-state operations) model-checked by TLC "
+                          "(safety, hazard invariant, deadlock freedom, termination under fairness; code-as-is and repaired variants); real threads "
+                          "under a baton scheduler with the same yield points: all schedules with bounded preemptions + random; every event log "
+                          "validated by the TLA+ monitor Trace_Conc.tla",
+                category="model_checking", design_ref="6/C12",
+                note="trusts: preemption only at instrumented yield points (dict operations on the three caches, stub binding, loader entry); "
+                     "CPython dict atomicity; 6 scenarios, 2-3 threads; <= 2 (quick) / <= 3 (thorough) preemptions exhaustively up to a budget",
+                text="TLC explores every interleaving of 2-3 threads through the protocol model: the repaired protocol is safe and live, the "
+                     "code as it is reaches the hazard state (non-vacuity).  The same alphabet drives real threads on the real Retort: all "
+                     "schedules with a bounded number of preemptions and random schedules, each followed by calls on nested data and compared "
+                     "with a single-threaded run; every recorded event log must be explained by the model (a call crashes iff Conc.tla "
+                     "predicts it).  The known race is reported as KNOWN-FINDING; any other exception, deadlock, lost thread or unexplained "
+                     "run is a violation."),
     "C13": dict(technique="TLA+ spec Link.tla (documented linking search, symbolic plan per destination field) model-checked by TLC; every "
                           "enumerated program built with dataclasses + impl_converter + public link providers and run on tagged values",
                 category="model_checking", design_ref="6/C13",
